@@ -330,13 +330,18 @@ impl Gen {
                     let start = rng.below(hs.len() - 1);
                     let n = rng.range(2, 4) as usize;
                     let with_text = rng.chance(1, 2);
-                    for h in hs.iter().skip(start).take(n) {
+                    // 0: every member whole (compression expected); 1: whole members with one almost-whole neighbour
+                    // (must not be merged); 2: anything
+                    let pattern = rng.below(3);
+                    let odd_one = rng.below(n);
+                    for (i, h) in hs.iter().skip(start).take(n).enumerate() {
                         if with_text {
                             if let Some((_, pb, pe)) = m.parent_range(*h) {
                                 // whole-text offsets are what range compression looks for; almost-whole neighbours must not be merged
                                 let len = pe - pb;
-                                let begin = if len >= 2 && rng.chance(1, 6) { Cur::B(1) } else { Cur::B(0) };
-                                let end = match rng.below(6) {
+                                let whole = pattern == 0 || (pattern == 1 && i != odd_one);
+                                let begin = if !whole && len >= 2 && rng.chance(1, 6) { Cur::B(1) } else { Cur::B(0) };
+                                let end = match if whole { 0 } else { rng.below(6) } {
                                     0 | 1 => Cur::E(0),
                                     2 | 3 => Cur::B(len),
                                     4 if len >= 2 => Cur::E(-1),
